@@ -485,12 +485,14 @@ func RunByz(sc ByzScenario, slot int) (out *ByzOutcome) {
 	}
 	if !out.Reached && len(out.Problems) == 0 {
 		sig := "byz:stall:" + strings.Join(kinds, "+")
+		live := true
 		for _, ev := range v.Rec.Events() {
 			if ev.Op == "Ban" && strings.HasPrefix(ev.Who, "honest:") {
 				sig = "byz:stall-after-ban-honest:" + ev.Kind + ":" + strings.Join(kinds, "+")
+				live = false
 			}
 		}
-		fail(true, sig, "victim did not reach the honest tip %s within %d ms (tip %s)", htip, sc.DeadlineMs, out.Tips["v"])
+		fail(live, sig, "victim did not reach the honest tip %s within %d ms (tip %s)", htip, sc.DeadlineMs, out.Tips["v"])
 	}
 	closeAll()
 
